@@ -452,6 +452,20 @@ def size_steers_nothing(ctx, facts, cfg):
     done = {}
     nsw = [0]
 
+    def size_place(body, pl):
+        return pl is not None and any(isinstance(e, dict) and e.get('f') in size_fields for e in pl['p']) and 'Work' in body.local_ty(pl['l'])
+
+    def rv_places(rv):
+        out = []
+        for k in ('op', 'a', 'b'):
+            if isinstance(rv.get(k), dict):
+                out.append(op_place(rv[k]))
+        if isinstance(rv.get('place'), dict):
+            out.append(rv['place'])
+        for o in rv.get('ops', []) or []:
+            out.append(op_place(o))
+        return [x for x in out if x is not None]
+
     def analyse(p, seed_params):
         key = (p, tuple(sorted(seed_params)))
         if key in done:
@@ -467,15 +481,12 @@ def size_steers_nothing(ctx, facts, cfg):
             if blk['cleanup']:
                 continue
             for st in blk['stmts']:
-                if st['k'] == 'assign' and st['rv']['k'] == 'use':
-                    pl = op_place(st['rv']['op'])
-                    if pl is not None and any(isinstance(e, dict) and e.get('f') in size_fields for e in pl['p']) and \
-                            'Work' in body.local_ty(pl['l']):
-                        seeds.add(st['lhs']['l'])
+                if st['k'] == 'assign' and any(size_place(body, pl) for pl in rv_places(st['rv'])):
+                    seeds.add(st['lhs']['l'])
         if not seeds:
             return
         num = lambda c: re.search(r'^core::num::|::div_ceil$|^std::cmp::(min|max)', c.get('path') or '') is not None
-        flow = core.forward_flow(body, seeds, through_calls=num)
+        flow = core.forward_flow(body, seeds, through_calls=num, whole_only=True)
         if body.local_ty(0).startswith('std::result::Result<'):
             errs, oks = core.result_exits(body)
             succ_blocks = {b for (b, k, d) in oks}
@@ -493,7 +504,8 @@ def size_steers_nothing(ctx, facts, cfg):
                 ds = [d for d in body.defs().get(pl['l'], []) if d[0] == 'stmt']
                 if len(ds) == 1:
                     rv = body.blocks[ds[0][1]]['stmts'][ds[0][2]]['rv']
-                    if rv['k'] == 'bin' and rv['op'] in ('Eq', 'Ne') and all(op_place(rv[x]) is not None and op_place(rv[x])['l'] in flow for x in ('a', 'b')):
+                    sized = lambda o: op_place(o) is not None and ((op_place(o)['l'] in flow and not op_place(o)['p']) or size_place(body, op_place(o)))
+                    if rv['k'] == 'bin' and rv['op'] in ('Eq', 'Ne') and sized(rv['a']) and sized(rv['b']):
                         continue
                 nsw[0] += 1
                 outs = sorted({tgt for _, tgt in t['targets']} | {t['otherwise']})
